@@ -355,7 +355,14 @@ impl IgnoreFilter {
 			// Unwrap will always succeed because every node has an entry.
 			let ignores = trie_node.value().unwrap();
 
-			let match_ = if path.strip_prefix(&self.origin).is_ok() {
+			// Unwrap will always succeed because every node has an entry.
+			let trie_path = Path::new(trie_node.key().unwrap());
+
+			let match_ = if !path.starts_with(trie_path) {
+				// the trie finds string prefixes: `test` is not an ancestor of `tests/x`
+				trace!(?path, ?trie_path, "ignores are for a sibling with a common name prefix, skipping");
+				Match::None
+			} else if path.strip_prefix(&self.origin).is_ok() {
 				trace!(?path, ?search_path, "checking against path or parents");
 				ignores.gitignore.matched_path_or_any_parents(path, is_dir)
 			} else {
@@ -370,8 +377,6 @@ impl IgnoreFilter {
 						?search_path,
 						"no match found, searching for parent ignores"
 					);
-					// Unwrap will always succeed because every node has an entry.
-					let trie_path = Path::new(trie_node.key().unwrap());
 					if let Some(trie_parent) = trie_path.parent() {
 						trace!(?path, ?search_path, "checking parent ignore");
 						search_path = trie_parent;
